@@ -430,6 +430,48 @@ func genTransferTokens(repo string) (string, error) {
 		ok = false
 	}
 	fmt.Fprintf(&b, "Definition shutdown_upgrade_only_stops_accept : bool := %v.\nDefinition shutdown_otherwise_closes_then_drains : bool := %v.\n", upgradeStops, otherCloses)
+	// connection.go NewServerConnection: the read buffer of a connection rebuilt from a transfer must leave room for the
+	// next read (defective shape: GetIoBuffer(len(buf)) - full when len(buf) is a pool size, see Model/Shutdown.v)
+	_, cf, err := ParseGoFile(repo, "pkg/network/connection.go")
+	if err != nil {
+		return "", err
+	}
+	hasRoom, seen := false, false
+	if fd := FindFunc(cf, "", "newServerConnection"); fd != nil {
+		ast.Inspect(fd.Body, func(n ast.Node) bool {
+			is, isi := n.(*ast.IfStmt)
+			if !isi || is.Init == nil {
+				return true
+			}
+			// if cval, err := variable.Get(ctx, types.VariableAcceptChan); ...
+			as, isa := is.Init.(*ast.AssignStmt)
+			if !isa || len(as.Rhs) != 1 {
+				return true
+			}
+			call, isc := as.Rhs[0].(*ast.CallExpr)
+			if !isc || len(call.Args) != 2 || !strings.HasSuffix(exprString(call.Args[1]), "VariableAcceptChan") {
+				return true
+			}
+			ast.Inspect(is.Body, func(m ast.Node) bool {
+				c, isc := m.(*ast.CallExpr)
+				if !isc {
+					return true
+				}
+				if sel, iss := c.Fun.(*ast.SelectorExpr); iss && sel.Sel.Name == "GetIoBuffer" && len(c.Args) == 1 {
+					seen = true
+					if be, isb := c.Args[0].(*ast.BinaryExpr); isb && be.Op == token.ADD {
+						hasRoom = true
+					}
+				}
+				return true
+			})
+			return true
+		})
+	}
+	if !seen {
+		ok = false
+	}
+	fmt.Fprintf(&b, "Definition transfer_buffer_has_room : bool := %v.\n", hasRoom)
 	fmt.Fprintf(&b, "Definition TransferTokens_translator_ok := %v.\n", ok)
 	return b.String(), nil
 }
